@@ -1075,3 +1075,313 @@ Proof.
     destruct (N.eqb_spec c DQ) as [->|]; [|reflexivity].
     rewrite (H start rest eq_refl Hs). reflexivity.
 Qed.
+
+(* ------------------------------------------------------------------ cross effects on the measures *)
+
+Lemma lone_cnt_prev_irrel p q s : bad_prev p = bad_prev q -> lone_cnt p s = lone_cnt q s.
+Proof. intros H. destruct s as [|c t]; [reflexivity|]. rewrite !lone_cnt_cons. rewrite H. reflexivity. Qed.
+
+Lemma head_is_app_ne c a rest : a <> [] -> head_is c (a ++ rest) = head_is c a.
+Proof. destruct a; [congruence | reflexivity]. Qed.
+
+(* inserting a blank after '#' does not change the number of lone '=' *)
+Lemma lone_cnt_insert_blank a : forall p rest,
+  lone_cnt p (a ++ HASH :: rest) = lone_cnt p (a ++ HASH :: SP :: rest).
+Proof.
+  induction a as [|c a IH]; intros p rest.
+  - cbn [app]. rewrite !lone_cnt_cons. change (HASH =? EQ)%N with false. change (SP =? EQ)%N with false.
+    cbn [andb]. rewrite (lone_cnt_prev_irrel HASH SP rest eq_refl). reflexivity.
+  - cbn [app]. rewrite !lone_cnt_cons. rewrite (IH c rest).
+    destruct a as [|d a']; reflexivity.
+Qed.
+
+(* inserting ':' before '=' does not change the number of tight '#' *)
+Lemma tight_insert_colon a : forall rest,
+  tight_hash_count (a ++ EQ :: rest) = tight_hash_count (a ++ COLON :: EQ :: rest).
+Proof.
+  induction a as [|c a IH]; intros rest.
+  - cbn [app]. rewrite !tight_cons. change (COLON =? HASH)%N with false. cbn [andb]. reflexivity.
+  - cbn [app]. rewrite !tight_cons. rewrite (IH rest). destruct a as [|d a']; reflexivity.
+Qed.
+
+Lemma unesc_head body body' :
+  unesc_pairs body = Some body' ->
+  match body, body' with
+  | [], [] => True
+  | c :: _, c' :: _ => c = c'
+  | _, _ => False
+  end.
+Proof.
+  destruct body as [|c t]; [intros [= <-]; exact I|].
+  rewrite unesc_pairs_cons.
+  destruct (N.eqb_spec c DQ); [discriminate|]. destruct (N.eqb_spec c BT); [discriminate|].
+  destruct (N.eqb_spec c BSL) as [->|].
+  - destruct t as [|d t2]; [discriminate|]. destruct (N.eqb_spec d BSL); [|discriminate].
+    destruct (unesc_pairs t2); [|discriminate]. intros [= <-]. reflexivity.
+  - destruct (unesc_pairs t); [|discriminate]. intros [= <-]. reflexivity.
+Qed.
+
+(* the decoding of an accepted body leaves the number of lone '=' unchanged *)
+Lemma lone_cnt_unesc body : forall body' r1 r2 p,
+  unesc_pairs body = Some body' ->
+  head_is EQ r1 = head_is EQ r2 -> (forall q, lone_cnt q r1 = lone_cnt q r2) ->
+  lone_cnt p (body ++ r1) = lone_cnt p (body' ++ r2).
+Proof.
+  induction body as [|c|c d t IHt IHdt] using str_ind2; intros body' r1 r2 p Hu Hh Hr.
+  - injection Hu as <-. apply Hr.
+  - rewrite unesc_pairs_cons in Hu.
+    destruct (N.eqb_spec c DQ); [discriminate|]. destruct (N.eqb_spec c BT); [discriminate|].
+    destruct (N.eqb_spec c BSL); [discriminate|]. injection Hu as <-.
+    cbn [app]. rewrite !lone_cnt_cons. rewrite Hh, Hr. reflexivity.
+  - rewrite unesc_pairs_cons in Hu.
+    destruct (N.eqb_spec c DQ); [discriminate|]. destruct (N.eqb_spec c BT); [discriminate|].
+    destruct (N.eqb_spec c BSL) as [->|Hs].
+    + destruct (N.eqb_spec d BSL) as [->|]; [|discriminate].
+      destruct (unesc_pairs t) as [r|] eqn:Hr'; [|discriminate]. injection Hu as <-.
+      cbn [app]. rewrite (lone_cnt_cons p BSL). rewrite (lone_cnt_cons BSL BSL). rewrite (lone_cnt_cons p BSL (r ++ r2)).
+      change (BSL =? EQ)%N with false. cbn [andb Nat.add].
+      apply IHt; [reflexivity|assumption|assumption].
+    + destruct (unesc_pairs (d :: t)) as [r|] eqn:Hr'; [|discriminate]. injection Hu as <-.
+      change ((c :: d :: t) ++ r1) with (c :: ((d :: t) ++ r1)).
+      change ((c :: r) ++ r2) with (c :: (r ++ r2)).
+      rewrite !lone_cnt_cons.
+      rewrite (IHdt r r1 r2 c eq_refl Hh Hr).
+      pose proof (unesc_head _ _ Hr') as Hhd. destruct r as [|d' r']; [contradiction|]. subst d'.
+      reflexivity.
+Qed.
+
+Lemma lone_cnt_requote a : forall p body body' rest,
+  unesc_pairs body = Some body' ->
+  lone_cnt p (a ++ DQ :: body ++ DQ :: rest) = lone_cnt p (a ++ BT :: body' ++ BT :: rest).
+Proof.
+  induction a as [|c a IH]; intros p body body' rest Hu.
+  - cbn [app]. rewrite !lone_cnt_cons. change (DQ =? EQ)%N with false. change (BT =? EQ)%N with false.
+    cbn [andb Nat.add].
+    rewrite (lone_cnt_prev_irrel DQ BT _ eq_refl).
+    apply lone_cnt_unesc; [exact Hu|reflexivity|].
+    intros q. rewrite !lone_cnt_cons. change (DQ =? EQ)%N with false. change (BT =? EQ)%N with false.
+    cbn [andb Nat.add]. apply lone_cnt_prev_irrel. reflexivity.
+  - cbn [app]. rewrite !lone_cnt_cons. rewrite (IH c body body' rest Hu).
+    destruct a as [|d a']; reflexivity.
+Qed.
+
+Lemma tight_unesc body : forall body' r1 r2,
+  unesc_pairs body = Some body' ->
+  next_tight r1 = next_tight r2 -> tight_hash_count r1 = tight_hash_count r2 ->
+  tight_hash_count (body ++ r1) = tight_hash_count (body' ++ r2).
+Proof.
+  induction body as [|c|c d t IHt IHdt] using str_ind2; intros body' r1 r2 Hu Hn Ht.
+  - injection Hu as <-. exact Ht.
+  - rewrite unesc_pairs_cons in Hu.
+    destruct (N.eqb_spec c DQ); [discriminate|]. destruct (N.eqb_spec c BT); [discriminate|].
+    destruct (N.eqb_spec c BSL); [discriminate|]. injection Hu as <-.
+    cbn [app]. rewrite !tight_cons. fold (next_tight r1). fold (next_tight r2). rewrite Hn, Ht. reflexivity.
+  - rewrite unesc_pairs_cons in Hu.
+    destruct (N.eqb_spec c DQ); [discriminate|]. destruct (N.eqb_spec c BT); [discriminate|].
+    destruct (N.eqb_spec c BSL) as [->|Hs].
+    + destruct (N.eqb_spec d BSL) as [->|]; [|discriminate].
+      destruct (unesc_pairs t) as [r|] eqn:Hr'; [|discriminate]. injection Hu as <-.
+      cbn [app]. rewrite (tight_cons BSL). rewrite (tight_cons BSL (t ++ r1)). rewrite (tight_cons BSL (r ++ r2)).
+      change (BSL =? HASH)%N with false. cbn [andb Nat.add].
+      apply IHt; [reflexivity|assumption|assumption].
+    + destruct (unesc_pairs (d :: t)) as [r|] eqn:Hr'; [|discriminate]. injection Hu as <-.
+      change ((c :: d :: t) ++ r1) with (c :: ((d :: t) ++ r1)).
+      change ((c :: r) ++ r2) with (c :: (r ++ r2)).
+      rewrite !tight_cons.
+      rewrite (IHdt r r1 r2 eq_refl Hn Ht).
+      pose proof (unesc_head _ _ Hr') as Hhd. destruct r as [|d' r']; [contradiction|]. subst d'.
+      reflexivity.
+Qed.
+
+Lemma tight_requote a : forall body body' rest,
+  unesc_pairs body = Some body' ->
+  tight_hash_count (a ++ DQ :: body ++ DQ :: rest) = tight_hash_count (a ++ BT :: body' ++ BT :: rest).
+Proof.
+  induction a as [|c a IH]; intros body body' rest Hu.
+  - cbn [app]. rewrite !tight_cons. change (DQ =? HASH)%N with false. change (BT =? HASH)%N with false.
+    cbn [andb Nat.add]. apply tight_unesc; [exact Hu|reflexivity|].
+    rewrite !tight_cons. change (DQ =? HASH)%N with false. change (BT =? HASH)%N with false. reflexivity.
+  - cbn [app]. rewrite !tight_cons. rewrite (IH body body' rest Hu).
+    destruct a as [|d a']; [|reflexivity].
+    cbn [app]. change (negb (is_blank DQ)) with true. change (negb (is_blank BT)) with true. reflexivity.
+Qed.
+
+(* the total measure of the text fixes *)
+Definition text_measure (c : str) : nat := count_byte DQ c + lone_cnt NL c + tight_hash_count c.
+
+Theorem uao_decreases_total content l c' :
+  uao_fix content [l] = Changed c' -> text_measure c' < text_measure content.
+Proof.
+  intros H. pose proof (uao_progress _ _ _ H) as Hp.
+  destruct (uao_effect _ _ _ H) as (a & pre & post & b & -> & -> & _).
+  unfold text_measure. rewrite Hp.
+  replace (a ++ pre ++ EQ :: post ++ b) with ((a ++ pre) ++ EQ :: (post ++ b)) by (rewrite <- app_assoc; reflexivity).
+  replace (a ++ pre ++ COLON :: EQ :: post ++ b) with ((a ++ pre) ++ COLON :: EQ :: (post ++ b)) by (rewrite <- app_assoc; reflexivity).
+  rewrite <- tight_insert_colon.
+  rewrite !count_byte_app. rewrite (count_byte_cons_ne DQ COLON) by discriminate. lia.
+Qed.
+
+Theorem nrr_decreases_total content l c' :
+  nrr_fix content [l] = Changed c' -> text_measure c' < text_measure content.
+Proof.
+  intros H. pose proof (nrr_progress _ _ _ H) as Hp.
+  destruct (nrr_effect _ _ _ H) as (a & pre & body & post & b & body' & -> & -> & Hu & _).
+  unfold text_measure. rewrite Hp.
+  replace (a ++ pre ++ DQ :: body ++ DQ :: post ++ b) with ((a ++ pre) ++ DQ :: body ++ DQ :: (post ++ b))
+    by (rewrite <- app_assoc; reflexivity).
+  replace (a ++ pre ++ BT :: body' ++ BT :: post ++ b) with ((a ++ pre) ++ BT :: body' ++ BT :: (post ++ b))
+    by (rewrite <- app_assoc; reflexivity).
+  rewrite (lone_cnt_requote (a ++ pre) NL body body' (post ++ b) Hu).
+  rewrite (tight_requote (a ++ pre) body body' (post ++ b) Hu). lia.
+Qed.
+
+Theorem nwc_total content l c' :
+  nwc_fix content [l] = Changed c' ->
+  text_measure c' <= text_measure content /\
+  (nwc_reported content l -> text_measure c' < text_measure content).
+Proof.
+  intros H. destruct (nwc_progress _ _ _ H) as [Hle Hlt].
+  destruct (nwc_effect _ _ _ H) as (a & pre & post & b & Ec & Ec' & _).
+  assert (Hsame : count_byte DQ c' = count_byte DQ content /\ lone_cnt NL c' = lone_cnt NL content).
+  { rewrite Ec, Ec'.
+    replace (a ++ pre ++ HASH :: post ++ b) with ((a ++ pre) ++ HASH :: (post ++ b)) by (rewrite <- app_assoc; reflexivity).
+    replace (a ++ pre ++ HASH :: SP :: post ++ b) with ((a ++ pre) ++ HASH :: SP :: (post ++ b)) by (rewrite <- app_assoc; reflexivity).
+    split.
+    - rewrite !count_byte_app. rewrite !(count_byte_cons_ne DQ HASH) by discriminate.
+      rewrite (count_byte_cons_ne DQ SP) by discriminate. reflexivity.
+    - symmetry. apply lone_cnt_insert_blank. }
+  destruct Hsame as [Hd Hl]. unfold text_measure. rewrite Hd, Hl. split; [lia|].
+  intros Hr. specialize (Hlt Hr). lia.
+Qed.
+
+(* ------------------------------------------------------------------ a fix changes one row only *)
+
+Lemma split_on_notin c w : ~ In c w -> split_on c w = [w].
+Proof.
+  induction w as [|x w IH]; intros Hn; [reflexivity|].
+  simpl. destruct (N.eqb_spec x c) as [->|Hne]; [exfalso; apply Hn; left; reflexivity|].
+  rewrite IH; [reflexivity|]. intros Hin. apply Hn. right. exact Hin.
+Qed.
+
+Lemma split_on_app_sep c w s : ~ In c w -> split_on c (w ++ c :: s) = w :: split_on c s.
+Proof.
+  induction w as [|x w IH]; intros Hn.
+  - simpl. rewrite N.eqb_refl. reflexivity.
+  - simpl. destruct (N.eqb_spec x c) as [->|Hne]; [exfalso; apply Hn; left; reflexivity|].
+    rewrite IH; [reflexivity|]. intros Hin. apply Hn. right. exact Hin.
+Qed.
+
+Lemma split_on_join ls :
+  ls <> [] -> (forall w, In w ls -> ~ In NL w) -> split_on NL (join [NL] ls) = ls.
+Proof.
+  induction ls as [|w ls IH]; intros Hne Hno; [congruence|].
+  destruct ls as [|w2 ls'].
+  - simpl. apply split_on_notin. apply Hno. left. reflexivity.
+  - rewrite join_cons_ne by discriminate. cbn [app].
+    rewrite split_on_app_sep by (apply Hno; left; reflexivity).
+    f_equal. apply IH; [discriminate|]. intros x Hx. apply Hno. right. exact Hx.
+Qed.
+
+Lemma in_set_nth {A} (l : list A) : forall n x y, In y (set_nth l n x) -> y = x \/ In y l.
+Proof.
+  induction l as [|h t IH]; intros [|n] x y H; simpl in *; try contradiction.
+  - destruct H as [<-|H]; [left; reflexivity|right; right; exact H].
+  - destruct H as [<-|H]; [right; left; reflexivity|].
+    destruct (IH n x y H) as [->|Hin]; [left; reflexivity|right; right; exact Hin].
+Qed.
+
+(* after a no-whitespace-comment fix at row r, every other row of the line table is what it was *)
+Lemma nwc_fix_other_rows content l c' :
+  nwc_fix content [l] = Changed c' ->
+  forall r, r <> l_row l -> get_line (lines_of c') r = get_line (lines_of content) r.
+Proof.
+  unfold nwc_fix. rewrite run_fix_single. unfold nwc_step.
+  destruct (get_line (lines_of content) (l_row l)) as [line|] eqn:Hg; [|discriminate].
+  destruct (nwc_line line (l_col l)) as [line'|] eqn:Hf; [|discriminate].
+  intros [= <-] r Hr.
+  pose proof (get_line_some _ _ _ Hg) as [Hrow Hn].
+  destruct (nwc_line_spec _ _ _ Hf) as (pre & post & -> & -> & _).
+  pose proof (nth_error_In _ _ Hn) as Hin. apply lines_of_no_nl in Hin.
+  unfold unlines, lines_of at 1. rewrite split_on_join.
+  - apply get_line_set_line_other; [exact Hrow|congruence].
+  - unfold set_line. apply set_nth_ne. apply split_on_nonempty.
+  - intros w Hw. unfold set_line in Hw. apply in_set_nth in Hw. destruct Hw as [->|Hw].
+    + intros H. apply Hin. apply in_app_or in H. destruct H as [H|[H|[H|H]]].
+      * apply in_app_mid. left. exact H.
+      * discriminate H.
+      * discriminate H.
+      * apply in_app_mid. right. exact H.
+    + apply lines_of_no_nl in Hw. exact Hw.
+Qed.
+
+Lemma nwc_reported_same_line c0 c l :
+  get_line (lines_of c) (l_row l) = get_line (lines_of c0) (l_row l) ->
+  nwc_reported c0 l -> nwc_reported c l.
+Proof. unfold nwc_reported. intros E H line idx Hg. apply H. rewrite <- E. exact Hg. Qed.
+
+(* ------------------------------------------------------------------ every text fix is row-local *)
+
+Lemma line_fix_row_local fline :
+  (forall line col line', fline line col = Some line' -> ~ In NL line -> ~ In NL line') ->
+  forall content l c',
+    run_fix (line_step fline) content [l] = Changed c' ->
+    length (lines_of c') = length (lines_of content) /\
+    forall r, r <> l_row l -> get_line (lines_of c') r = get_line (lines_of content) r.
+Proof.
+  intros Hnl content l c'. rewrite run_fix_single. unfold line_step.
+  destruct (get_line (lines_of content) (l_row l)) as [line|] eqn:Hg; [|discriminate].
+  destruct (fline line (l_col l)) as [line'|] eqn:Hf; [|discriminate].
+  intros [= <-].
+  pose proof (get_line_some _ _ _ Hg) as [Hrow Hn].
+  pose proof (nth_error_In _ _ Hn) as Hin. apply lines_of_no_nl in Hin.
+  assert (E : lines_of (unlines (set_line (lines_of content) (l_row l) line')) =
+              set_line (lines_of content) (l_row l) line').
+  { unfold unlines, lines_of at 1. apply split_on_join.
+    - unfold set_line. apply set_nth_ne. apply split_on_nonempty.
+    - intros w Hw. unfold set_line in Hw. apply in_set_nth in Hw. destruct Hw as [->|Hw].
+      + eapply Hnl; eassumption.
+      + apply lines_of_no_nl in Hw. exact Hw. }
+  rewrite E. split.
+  - unfold set_line. apply set_nth_length.
+  - intros r Hr. apply get_line_set_line_other; [exact Hrow|congruence].
+Qed.
+
+Lemma uao_line_no_nl line col line' : uao_line line col = Some line' -> ~ In NL line -> ~ In NL line'.
+Proof.
+  intros H Hn. destruct (uao_line_spec _ _ _ H) as (pre & post & -> & -> & _).
+  intros Hin. apply in_app_or in Hin. destruct Hin as [Hin|[Hin|[Hin|Hin]]]; try discriminate Hin.
+  - apply Hn. apply in_app_mid. left. exact Hin.
+  - apply Hn. apply in_app_mid. right. exact Hin.
+Qed.
+
+Lemma nwc_line_no_nl line col line' : nwc_line line col = Some line' -> ~ In NL line -> ~ In NL line'.
+Proof.
+  intros H Hn. destruct (nwc_line_spec _ _ _ H) as (pre & post & -> & -> & _).
+  intros Hin. apply in_app_or in Hin. destruct Hin as [Hin|[Hin|[Hin|Hin]]]; try discriminate Hin.
+  - apply Hn. apply in_app_mid. left. exact Hin.
+  - apply Hn. apply in_app_mid. right. exact Hin.
+Qed.
+
+Lemma nrr_line_no_nl line col line' : nrr_line line col = Some line' -> ~ In NL line -> ~ In NL line'.
+Proof.
+  intros H Hn. destruct (nrr_line_spec _ _ _ H) as (pre & body & post & body' & -> & -> & Hu & _).
+  destruct (unesc_clean _ _ Hu) as (_ & _ & Hb).
+  intros Hin. apply in_app_or in Hin. destruct Hin as [Hin|[Hin|Hin]]; try discriminate Hin.
+  - apply Hn. apply in_app_mid. left. exact Hin.
+  - apply in_app_or in Hin. destruct Hin as [Hin|[Hin|Hin]]; try discriminate Hin.
+    + revert Hin. apply Hb. intros Hi. apply Hn. apply in_app_mid. right. apply in_app_mid. left. exact Hi.
+    + apply Hn. apply in_app_mid. right. apply in_app_mid. right. exact Hin.
+Qed.
+
+(* what the fixer relies on after a file was changed within an iteration: a location-based fix changes
+   nothing but the row of its location (same number of rows, every other row untouched) *)
+Theorem text_fix_changes_one_row content l c' :
+  uao_fix content [l] = Changed c' \/ nwc_fix content [l] = Changed c' \/ nrr_fix content [l] = Changed c' ->
+  length (lines_of c') = length (lines_of content) /\
+  forall r, r <> l_row l -> get_line (lines_of c') r = get_line (lines_of content) r.
+Proof.
+  intros [H|[H|H]].
+  - unfold uao_fix in H. rewrite uao_step_shape in H. exact (line_fix_row_local _ uao_line_no_nl _ _ _ H).
+  - unfold nwc_fix in H. rewrite nwc_step_shape in H. exact (line_fix_row_local _ nwc_line_no_nl _ _ _ H).
+  - unfold nrr_fix in H. rewrite nrr_step_shape in H. exact (line_fix_row_local _ nrr_line_no_nl _ _ _ H).
+Qed.
